@@ -179,6 +179,7 @@ type recWriter struct {
 	mu    sync.Mutex
 	calls []recCall
 	fail  error
+	t0    int64
 }
 type recCall struct {
 	db, rp string
